@@ -38,7 +38,7 @@ struct Triple {
 
 fn outcome_eq(a: &Out<Value>, b: &Out<Value>) -> bool {
     match (a, b) {
-        (Out::Ok(x), Out::Ok(y)) => x == y,
+        (Out::Ok(x), Out::Ok(y)) => !crate::exact::differs(x, y),
         (Out::Err(_), Out::Err(_)) => true,
         _ => false,
     }
